@@ -1,6 +1,7 @@
 """C01 deterministic replay — decided clauses: absence of every source of
 run-to-run variation a single-threaded, seedless library can have."""
 import re
+import simlib
 import q, engines
 from simlib import strip_targs, is_node
 
@@ -50,7 +51,7 @@ GLOBALS = {
 def lib_records(fx):
     seen = {}
     for r in fx.records.values():
-        if r['dependent'] or not r['file'].startswith('/repo/'):
+        if r['dependent'] or not r['file'].startswith(simlib.REPO_PREFIX):
             continue
         if not r['norm'].startswith('sim::'):
             continue
@@ -99,6 +100,15 @@ def check(run):
                 ok = False
                 why = 'no slot assignment found (idiom changed)'
             run.check(ok, 'R1-GUARD', fld, fn.norm + fn.sig, fn.loc(), why, 'every path that sets an accept slot first writes ' + fld)
+    r13b(run, OUTPUT_ONLY)
+    r13c(run, OUTPUT_ONLY)
+    r13d(run, simlib.REPO_PREFIX)
+    r13e(run, GLOBALS, simlib.REPO_PREFIX)
+    run.floor('R13e', 3)
+
+
+def r13b(run, OUTPUT_ONLY, with_library_tables=True):
+    fx = run.fx
     # R13b: iteration over hash-ordered or address-ordered containers
     run.clause('R13b no iteration over unordered or pointer-keyed containers outside output-only functions')
     PTRKEY = re.compile(r'std::(multi)?(map|set)<[^,<>]*\*')
@@ -132,6 +142,8 @@ def check(run):
                 else:
                     run.violation('R13b', 'iteration', '%s iterates %s' % (top.norm, ty[:80]), fn.loc(n),
                                   '%s over a container whose order depends on hashing or on object addresses (%s); the order reaches behaviour' % (what, ty[:120]))
+    if not with_library_tables:
+        return
     engines.r3_caller_table(run, 'sim::simulation::get_all_io_services', {'sim::dump_network_graph': 'output only'}, rule='R13b', instance='hash-order-escape')
     # container inventory (fields): every unordered / pointer-keyed container field is listed
     for r in lib_records(fx):
@@ -139,6 +151,10 @@ def check(run):
             if 'unordered_' in f['ty'] or PTRKEY.search(f['ty']):
                 run.ok('R13b', 'inventory', r['norm'] + '::' + f['name'], '%s:%d' % (r['file'], f['line']), 'hash/address-ordered container; iteration sites checked above', nontrivial=False)
 
+
+
+def r13c(run, OUTPUT_ONLY, with_library_tables=True):
+    fx = run.fx
     # R13c: pointer values used as data
     run.clause('R13c no relational comparison / integer conversion / hashing of object addresses')
     nptr = 0
@@ -162,7 +178,7 @@ def check(run):
                 if top.norm not in OUTPUT_ONLY:
                     run.violation('R13c', 'pointer-hash', '%s: %s' % (fn.norm, n['callee'][:60]), fn.loc(n), 'explicit hashing/ordering of object addresses')
     # the timer order: timer_compare must compare expiry() values, not the pointers
-    for fn in fx.fn('sim::simulation::timer_compare::operator()'):
+    for fn in (fx.fn('sim::simulation::timer_compare::operator()') if with_library_tables else []):
         run.touch(fn)
         rets = [n for n in fn.all_nodes() if n['k'] == 'return']
         ok = False
@@ -176,14 +192,21 @@ def check(run):
         run.check(ok, 'R13c', 'timer-order', 'sim::simulation::timer_compare', fn.loc(), 'timer order is not expiry() < expiry(): ' + txt, 'timer order compares expiry() values only: ' + txt)
     run.ok('R13c', 'scan', 'pointer-uses', '', 'scanned all functions; %d pointer comparison/conversion sites classified' % nptr, nontrivial=False)
 
+
+
+def r13d(run, root):
     # R13d forbidden ambient APIs
     run.clause('R13d no wall-clock, randomness, environment or thread API is called anywhere in the library')
-    engines.forbidden_calls(run, FORBIDDEN, 'R13d', 'ambient-api', scope=lambda f: f.file.startswith('/repo/'))
+    engines.forbidden_calls(run, FORBIDDEN, 'R13d', 'ambient-api', scope=lambda f: f.file.startswith(root))
 
+
+
+def r13e(run, GLOBALS, root):
+    fx = run.fx
     # R13e globals
     run.clause('R13e every mutable global/static is tabled and reset by the simulation constructor before configuration::build')
     for name, g in sorted(fx.globals.items()):
-        if g['const'] or not g['file'].startswith('/repo/'):
+        if g['const'] or not g['file'].startswith(root):
             continue
         loc = '%s:%d' % (g['file'], g['line'])
         if name not in GLOBALS:
@@ -218,7 +241,6 @@ def check(run):
                     readers.add(q.top_function(fx, fn).norm)
             run.check(not readers, 'R13e', 'global', name, loc, 'global %s is shared across simulations and is now used by %s' % (name, ', '.join(sorted(readers))),
                       'no library function reads or writes it')
-    run.floor('R13e', 3)
 
 
 def _precedes(fn, a, b):
